@@ -185,6 +185,23 @@ def impl(case):
         flw1.to_array("d8")
     except ValueError:
         exportable = 0
+    # the iterative method is compared with its model (kernel 916) on a second run in which np.argsort is stable: upscale.py
+    # sorts cells by upstream area with the default (unstable, CPU-dependent) sort, the model with a stable one; the
+    # property's own clauses are always decided on the unmodified run above
+    ihu_stable = []
+    if method == "ihu" and n <= 400:
+        orig_argsort = np.argsort
+        try:
+            np.argsort = lambda a_, *x_, **k_: orig_argsort(a_, *x_, **dict(k_, kind="stable"))
+            with warnings.catch_warnings():
+                warnings.simplefilter("ignore")
+                st3, v3 = call_impl(make_raster(ds, shape=(nr, nc)).upscale, s, method, None if upa is None else upa.copy(), timeout=30)
+        finally:
+            np.argsort = orig_argsort
+        if st3 == "ok":
+            ihu_stable = [idx_list(v3[0].idxs_ds), idx_list(v3[1]), [int(x) for x in v3[0].shape]]
+        else:
+            ihu_stable = [[-2], [-2], [0, 0]]
     # the 8-neighbour helper of the iterative method, on every cell of the coarse raster (kernel 915)
     from pyflwdir import core
     d8flat, upflat = [], []
@@ -194,7 +211,7 @@ def impl(case):
         l2 = [int(x) for x in core._upstream_d8_idx(i0, cda, tuple(shape1))]
         d8flat += [i0, len(l1)] + l1
         upflat += [i0, len(l2)] + l2
-    return [[0], cds, out, shape1, ea, upa_used, err, [exportable], d8flat, upflat]
+    return [[0], cds, out, shape1, ea, upa_used, err, [exportable], d8flat, upflat] + ([ihu_stable] if ihu_stable else [])
 
 
 def compare(case, i, m):
@@ -216,6 +233,8 @@ def post_checks(case, i):
     yield ("effective-area:no-cross-or-fine-links-not-d8", 914, base)
     if len(i) > 9:
         yield ("d8-neighbour-helper:differs-from-model", 915, [cds, [shape1[0]], [shape1[1]], i[8], i[9]])
+    if len(i) > 10 and c["method"] == "ihu" and (c["w"] is None or c.get("scale", 1) == 1):      # (the model takes integer areas; ihu compares them with cs^2 / 4)
+        yield ("ihu:differs-from-model", 916, base + i[10])
 
 
 def oracle(case, out):
